@@ -281,3 +281,28 @@ Proof.
   rewrite Ha in E. intro M. apply wrap_inner in M.
   exact (strip_sound_proof norm Hn _ _ _ _ _ _ E M).
 Qed.
+
+(* ---- the fixed-strings shortcut keeps the promise without stripping ---- *)
+Lemma fixed_no_term ic sm fx lt pats :
+  is_fixed_strings ic sm fx (Some lt) pats = true -> forall p, In p pats -> has_line_terminator lt p = false.
+Proof.
+  unfold is_fixed_strings. destruct (ic || sm); [discriminate|]. destruct fx.
+  - intros H p Hin. apply negb_true_iff in H. destruct (has_line_terminator lt p) eqn:E; [|reflexivity].
+    assert (existsb (has_line_terminator lt) pats = true) by (apply existsb_exists; eauto). congruence.
+  - intros H p Hin. rewrite forallb_forall in H. specialize (H p Hin). apply andb_true_iff in H as [_ H].
+    now apply negb_true_iff in H.
+Qed.
+
+Theorem fixed_strings_shortcut_sound_proof : forall ic sm fx lt pats s i j,
+  is_fixed_strings ic sm fx (Some lt) pats = true -> Matches (fixed_hir pats) s i j ->
+  forall p, i <= p < j -> is_term_byte lt (byte_at s p) = false.
+Proof.
+  intros ic sm fx lt pats s i j Hf M q Hq. unfold fixed_hir in M. apply matches_alt_iff in M as (h & Hin & M).
+  apply in_map_iff in Hin as (pat & <- & Hp). apply matches_lit_iff in M as (-> & Hi & Hpre).
+  pose proof (fixed_no_term ic sm fx lt pats Hf pat Hp) as Hno. unfold has_line_terminator in Hno.
+  replace q with (i + (q - i)) by lia. rewrite <- byte_at_skipn, (prefix_bytes _ _ _ Hpre) by lia.
+  destruct (is_term_byte lt (nth (q - i) pat 0%N)) eqn:E; [|reflexivity].
+  assert (existsb (is_term_byte lt) pat = true).
+  { apply existsb_exists. exists (nth (q - i) pat 0%N). split; [apply nth_In; lia|exact E]. }
+  congruence.
+Qed.
